@@ -673,6 +673,32 @@ theorem tile_then_read_after_any_history {α} [BEq α] [LawfulBEq α] (z : α) (
       rw [← this]
       congr 1 <;> omega
 
+/-- **LABELMAP segmentations in the same state machine.**  A LABELMAP read makes no channel query (`channel_indices = None`: no
+temporary table is created, the connection state is left as found — `temp_table_state_after_read`, first case) and is the plain
+region read of the ONE stored label matrix; `reads_independent_of_history` covers such steps like any other (`ChanRead.labelmap`).
+Tile-then-read: the label matrix `L` tiled by the constructor (explicit positions with or without `omit_empty_frames`, or TILED_FULL)
+and read back after ANY history of reads on the object — of either kind, refused or not — is the requested part of `L`.  (Splitting
+the labels into one channel per requested segment afterwards is `_get_pixels_by_seg_frame`, C02; the harness applies `label == s`.) -/
+theorem labelmap_tile_then_read_after_any_history {α} [BEq α] [LawfulBEq α] (z : α) (L : Img α) (R C tr tc : Int)
+    (hr : 1 ≤ tr) (hc : 1 ≤ tc) (hR : 1 ≤ R) (hC : 1 ≤ C) (full omitEmpty : Bool) (hfo : (full && omitEmpty) = false)
+    (steps : List ChanRead) (n : Nat) (rs re cs ce : Option Int) (ai : Bool)
+    (hstep : steps[n]? = some (labelmapRequest rs re cs ce ai)) (r0 r1 c0 c1 : Int)
+    (hstd : stdRowColIndices rs re cs ce R C ai false = .ok (r0, r1, c0, c1)) (hr01 : r0 ≤ r1) (hc01 : c0 ≤ c1) :
+    ∃ results out, tileThenHistory z [(0, L)] R C tr tc full omitEmpty steps = .ok results ∧
+      results[n]? = some (.ok (r1 - r0, c1 - c0, out)) ∧
+      ∀ (k : Int) i j, 0 ≤ i → i < r1 - r0 → 0 ≤ j → j < c1 - c0 → out k i j = L (r0 - 1 + i) (c0 - 1 + j) :=
+  tileThenHistory_labelmap z L R C tr tc hr hc hR hC full omitEmpty hfo steps n rs re cs ce ai hstep r0 r1 c0 c1 hstd hr01 hc01
+
+/-- a LABELMAP read leaves the connection exactly as it found it and is the plain region read -/
+theorem labelmap_read_is_region_read {α} (z : α) (lut : List LutRow) (frames : List (Img α)) (R C th tw : Int) (full am : Bool)
+    (rs re cs ce : Option Int) (ai : Bool) (st : TempState) :
+    stepRead z lut frames R C th tw full am (labelmapRequest rs re cs ce ai) st =
+      (st, match readRegion z lut frames R C th tw none rs re cs ce ai full am with
+           | .error e => .error e
+           | .ok (h, w, out) => .ok (h, w, fun _ => out)) :=
+  stepRead_labelmap z lut frames R C th tw full am rs re cs ce ai st
+
+
 /-- **Bridge (`tileThenRead` and the table).**  The single-segment path of `tile_then_read` reads the same table
 `tiledSegTable` the history theorems are about. -/
 theorem bridge_tile_then_read_table {α} [BEq α] (z : α) (Ms : List (Int × Img α)) (R C tr tc : Int) (full omitEmpty : Bool)
@@ -789,8 +815,8 @@ example : nonemptyTileCall 2 3 5 4 = .ok (5, 4, 2, 3) := by decide
 history = a combined read refused inside the `with` block (its table rows (1, 1), (2, 2) survive), a request outside the matrix,
 then a stacked read of segments [2, 1] (other order than stored) for the last two rows -/
 def exHistory : List ChanRead :=
-  [⟨[(1, 1), (2, 2)], 2, none, none, none, none, false, true⟩,
-   ⟨[(0, 1)], 1, some 9, none, none, none, false, false⟩,
+  [⟨[(1, 1), (2, 2)], 2, none, none, none, none, false, true, false⟩,
+   ⟨[(0, 1)], 1, some 9, none, none, none, false, false, false⟩,
    stackedRequest [2, 1] (some (-2)) none none (some (-1)) false]
 def exMseg : Int → Img Int := fun s => if s = 1 then exM else fun _ _ => 0
 theorem exMem : ∀ s ∈ [(2 : Int), 1], (s, exMseg s) ∈ [((1 : Int), exM), (2, fun _ _ => 0)] := by
@@ -842,5 +868,14 @@ example : (⟨3, 1, 7, 2⟩ : LutRow) ∈ ((joinRows (([⟨3, 1, 7, 2⟩, ⟨3, 
 example : runOps tempTableSetup [(1, 1), (1, 2)] (some [(0, 3)]) = (some [], some .other) ∧
     runOps tempTableSetup [(0, 1), (1, 2)] (some [(0, 3)]) = (some [(0, 1), (1, 2)], none) ∧
     runOps tempTableCleanup [] (some [(0, 1)]) = (none, none) := by decide
+/-- LABELMAP instantiated: the label matrix `exM` (5 × 4 in 2 × 3 tiles, TILED_FULL) read after a refused read and a read outside the matrix -/
+def exLabelHistory : List ChanRead :=
+  [⟨[], 1, none, none, none, none, false, true, true⟩, labelmapRequest (some 9) none none none false,
+   labelmapRequest (some (-2)) none none (some (-1)) false]
+example : ∃ results out, tileThenHistory (0 : Int) [(0, exM)] 5 4 2 3 true false exLabelHistory = .ok results ∧
+    results[2]? = some (.ok (2, 3, out)) ∧ out 0 1 2 = 42 := by
+  obtain ⟨results, out, h1, h2, hp⟩ := labelmap_tile_then_read_after_any_history (0 : Int) exM 5 4 2 3 (by decide) (by decide) (by decide)
+    (by decide) true false rfl exLabelHistory 2 (some (-2)) none none (some (-1)) false rfl 4 6 1 4 (by decide) (by decide) (by decide)
+  exact ⟨results, out, h1, h2, (hp 0 1 2 (by decide) (by decide) (by decide) (by decide)).trans rfl⟩
 
 end HdVerif.Examples.C04
